@@ -104,6 +104,16 @@ Theorem C14_token_list_lexes :
     exists out, tokenize (text_of l) = Ok (out ++ [Token tEOF [] (zlen (text_of l)) 0]) /\ Forall2 same_tv out l.
 Proof. exact tokenize_text. Qed.
 
+(* whitespace between tokens is insignificant: whatever non-empty runs of space,
+   tab, line feed and carriage return follow the tokens, the lexer reads the same
+   token types and values *)
+Theorem C14_whitespace_is_insignificant :
+  forall l1 l2, ws_text_ok l1 -> ws_text_ok l2 -> map fst l1 = map fst l2 ->
+    exists o1 o2 e1 e2, tokenize (text_ws l1) = Ok (o1 ++ [e1]) /\ tokenize (text_ws l2) = Ok (o2 ++ [e2]) /\
+      ttype e1 = tEOF /\ ttype e2 = tEOF /\
+      Forall2 (fun a b => ttype a = ttype b /\ tvalue a = tvalue b) o1 o2.
+Proof. exact whitespace_insignificant_tokens. Qed.
+
 (* ---- the machinery behind: cursor lexer = lexer over the remaining input;
    UTF-8 and JSON string escaping round trips ---- *)
 Theorem C14_lexer_view : forall e, tokenize e = tokenizeS e.
@@ -133,6 +143,7 @@ Print Assumptions C14_literal_lexes.
 Print Assumptions C14_literal_denotes.
 Print Assumptions C14_backtick_unescape.
 Print Assumptions C14_token_list_lexes.
+Print Assumptions C14_whitespace_is_insignificant.
 Print Assumptions C14_lexer_view.
 Print Assumptions C14_utf8_round_trip.
 Print Assumptions C14_json_string_round_trip.
